@@ -88,7 +88,7 @@ impl Gen {
         if self.frames {
             let ha = alpide::hit_alphabet();
             let hits: Vec<Hit> = if big { vec![ha[0], ha[5], ha[2], ha[8]] } else { vec![] };
-            alpide::conforming_frame(&self.r.cfg.lanes, if big { 0x5A } else { 0x21 }, &hits, !big)
+            alpide::conforming_frame(&self.r.cfg.lanes, if big { 0x5A } else { 0x00 }, &hits, !big) // empty chip frames with bunch counter 0: the byte after 0xEn is a zero
         } else {
             self.r.cfg.data_words(if big { 3 } else { 1 }, 40 + big as u64)
         }
